@@ -556,8 +556,16 @@ class PeriodicCondition(Condition):
             self.periodic_interval.boundary_right, n_points=n_points
         ).make_static()
 
-        tmp_left_sampler = self.left_sampler * self.non_periodic_sampler
-        tmp_right_sampler = self.right_sampler * self.non_periodic_sampler
+        # only needed to evaluate the data functions once (static case): pair the i-th
+        # boundary point with the i-th non periodic point, exactly as forward() does. They
+        # get their own boundary samplers, so that the static left/right samplers do not
+        # cache points that are already joined with the non periodic ones.
+        tmp_left_sampler = GridSampler(
+            self.periodic_interval.boundary_left, n_points=n_points
+        ).append(self.non_periodic_sampler)
+        tmp_right_sampler = GridSampler(
+            self.periodic_interval.boundary_right, n_points=n_points
+        ).append(self.non_periodic_sampler)
         if self.non_periodic_sampler.is_static:
             tmp_left_sampler = tmp_left_sampler.make_static()
             tmp_right_sampler = tmp_right_sampler.make_static()
